@@ -1,0 +1,349 @@
+//! Verification seam, compiled only with `--cfg orx_concurrent_iter_verif`.
+//!
+//! Drop-in replacements for the `std::sync::atomic` items used by this crate.
+//! Every operation is the real `std` atomic operation with the ordering the caller wrote;
+//! in addition it is reported to an externally installed [`Hook`] before and after it executes,
+//! so that a deterministic simulator can decide which thread runs at every atomic step
+//! and can derive happens-before from the orderings actually used.
+//!
+//! With no hook installed every operation is a plain pass-through.
+#![allow(missing_docs, clippy::missing_panics_doc)]
+
+use std::sync::atomic as std_atomic;
+use std::sync::OnceLock;
+
+pub use std_atomic::Ordering;
+
+/// Kind of a reported atomic operation.
+#[derive(Debug, Clone, Copy, PartialEq, Eq)]
+pub enum OpKind {
+    Load,
+    Store,
+    /// read-modify-write which always writes (`fetch_add`, `swap`, successful `compare_exchange`, ...)
+    Rmw,
+    /// failed `compare_exchange`: a load with the failure ordering
+    CasFail,
+}
+
+/// A reported atomic operation.
+#[derive(Debug, Clone, Copy)]
+pub struct Op {
+    /// address of the atomic
+    pub addr: usize,
+    /// width in bytes (8 for `AtomicUsize`, 1 for `AtomicBool`)
+    pub width: u8,
+    pub kind: OpKind,
+    pub ordering: Ordering,
+}
+
+/// Observer and scheduler seam.
+pub trait Hook: Send + Sync {
+    /// Called before the operation executes; may block the calling thread (scheduling point).
+    /// For a `Load`, returning `Some(v)` makes the shim return `v` instead of performing the load
+    /// (used to model a stale value which coherence still allows).
+    fn before(&self, op: &Op) -> Option<usize>;
+    /// Called after the operation executed, with the value read (`old`) and the value now stored (`new`);
+    /// for loads `old == new`; for stores `old` is meaningless (0).
+    fn after(&self, op: &Op, old: usize, new: usize);
+    /// `atomic::fence`
+    fn fence(&self, ordering: Ordering);
+    /// `std::hint::spin_loop` / `std::thread::yield_now` replacement
+    fn spin_hint(&self);
+}
+
+static HOOK: OnceLock<Box<dyn Hook>> = OnceLock::new();
+
+/// Installs the process-wide hook; returns false if one was already installed.
+pub fn install(hook: Box<dyn Hook>) -> bool {
+    HOOK.set(hook).is_ok()
+}
+
+#[inline]
+fn hook() -> Option<&'static dyn Hook> {
+    HOOK.get().map(|b| b.as_ref())
+}
+
+#[inline]
+fn before(op: &Op) -> Option<usize> {
+    match hook() {
+        Some(h) => h.before(op),
+        None => None,
+    }
+}
+
+#[inline]
+fn after(op: &Op, old: usize, new: usize) {
+    if let Some(h) = hook() {
+        h.after(op, old, new)
+    }
+}
+
+pub fn fence(ordering: Ordering) {
+    std_atomic::fence(ordering);
+    if let Some(h) = hook() {
+        h.fence(ordering)
+    }
+}
+
+pub fn compiler_fence(ordering: Ordering) {
+    std_atomic::compiler_fence(ordering);
+}
+
+pub fn spin_loop() {
+    std::hint::spin_loop();
+    if let Some(h) = hook() {
+        h.spin_hint()
+    }
+}
+
+macro_rules! op {
+    ($self:ident, $width:expr, $kind:expr, $ord:expr) => {
+        Op {
+            addr: $self as *const Self as usize,
+            width: $width,
+            kind: $kind,
+            ordering: $ord,
+        }
+    };
+}
+
+// AtomicUsize
+
+#[derive(Default)]
+pub struct AtomicUsize(std_atomic::AtomicUsize);
+
+impl std::fmt::Debug for AtomicUsize {
+    fn fmt(&self, f: &mut std::fmt::Formatter<'_>) -> std::fmt::Result {
+        std::fmt::Debug::fmt(&self.0, f)
+    }
+}
+
+impl From<usize> for AtomicUsize {
+    fn from(value: usize) -> Self {
+        Self::new(value)
+    }
+}
+
+impl AtomicUsize {
+    pub const fn new(value: usize) -> Self {
+        Self(std_atomic::AtomicUsize::new(value))
+    }
+
+    pub fn into_inner(self) -> usize {
+        self.0.into_inner()
+    }
+
+    pub fn get_mut(&mut self) -> &mut usize {
+        self.0.get_mut()
+    }
+
+    pub fn load(&self, ordering: Ordering) -> usize {
+        let op = op!(self, 8, OpKind::Load, ordering);
+        let value = match before(&op) {
+            Some(stale) => stale,
+            None => self.0.load(ordering),
+        };
+        after(&op, value, value);
+        value
+    }
+
+    pub fn store(&self, value: usize, ordering: Ordering) {
+        let op = op!(self, 8, OpKind::Store, ordering);
+        before(&op);
+        self.0.store(value, ordering);
+        after(&op, 0, value);
+    }
+
+    fn rmw(
+        &self,
+        ordering: Ordering,
+        f: impl FnOnce(&std_atomic::AtomicUsize) -> usize,
+        new: impl FnOnce(usize) -> usize,
+    ) -> usize {
+        let op = op!(self, 8, OpKind::Rmw, ordering);
+        before(&op);
+        let old = f(&self.0);
+        after(&op, old, new(old));
+        old
+    }
+
+    pub fn fetch_add(&self, value: usize, ordering: Ordering) -> usize {
+        self.rmw(ordering, |a| a.fetch_add(value, ordering), |o| o.wrapping_add(value))
+    }
+
+    pub fn fetch_sub(&self, value: usize, ordering: Ordering) -> usize {
+        self.rmw(ordering, |a| a.fetch_sub(value, ordering), |o| o.wrapping_sub(value))
+    }
+
+    pub fn fetch_max(&self, value: usize, ordering: Ordering) -> usize {
+        self.rmw(ordering, |a| a.fetch_max(value, ordering), |o| o.max(value))
+    }
+
+    pub fn fetch_min(&self, value: usize, ordering: Ordering) -> usize {
+        self.rmw(ordering, |a| a.fetch_min(value, ordering), |o| o.min(value))
+    }
+
+    pub fn fetch_or(&self, value: usize, ordering: Ordering) -> usize {
+        self.rmw(ordering, |a| a.fetch_or(value, ordering), |o| o | value)
+    }
+
+    pub fn fetch_and(&self, value: usize, ordering: Ordering) -> usize {
+        self.rmw(ordering, |a| a.fetch_and(value, ordering), |o| o & value)
+    }
+
+    pub fn swap(&self, value: usize, ordering: Ordering) -> usize {
+        self.rmw(ordering, |a| a.swap(value, ordering), |_| value)
+    }
+
+    pub fn compare_exchange(
+        &self,
+        current: usize,
+        new: usize,
+        success: Ordering,
+        failure: Ordering,
+    ) -> Result<usize, usize> {
+        // reported before execution as an RMW (the scheduler needs one scheduling point);
+        // the outcome decides what is reported afterwards
+        let pre = op!(self, 8, OpKind::Rmw, success);
+        before(&pre);
+        let result = self.0.compare_exchange(current, new, success, failure);
+        match result {
+            Ok(old) => after(&pre, old, new),
+            Err(seen) => {
+                let post = op!(self, 8, OpKind::CasFail, failure);
+                after(&post, seen, seen)
+            }
+        }
+        result
+    }
+
+    pub fn compare_exchange_weak(
+        &self,
+        current: usize,
+        new: usize,
+        success: Ordering,
+        failure: Ordering,
+    ) -> Result<usize, usize> {
+        // no spurious failures under the shim: a legal refinement of the weak form
+        self.compare_exchange(current, new, success, failure)
+    }
+
+    pub fn fetch_update(
+        &self,
+        set_order: Ordering,
+        fetch_order: Ordering,
+        mut f: impl FnMut(usize) -> Option<usize>,
+    ) -> Result<usize, usize> {
+        let mut prev = self.load(fetch_order);
+        while let Some(next) = f(prev) {
+            match self.compare_exchange_weak(prev, next, set_order, fetch_order) {
+                Ok(x) => return Ok(x),
+                Err(next_prev) => prev = next_prev,
+            }
+        }
+        Err(prev)
+    }
+}
+
+// AtomicBool
+
+#[derive(Default)]
+pub struct AtomicBool(std_atomic::AtomicBool);
+
+impl std::fmt::Debug for AtomicBool {
+    fn fmt(&self, f: &mut std::fmt::Formatter<'_>) -> std::fmt::Result {
+        std::fmt::Debug::fmt(&self.0, f)
+    }
+}
+
+impl From<bool> for AtomicBool {
+    fn from(value: bool) -> Self {
+        Self::new(value)
+    }
+}
+
+impl AtomicBool {
+    pub const fn new(value: bool) -> Self {
+        Self(std_atomic::AtomicBool::new(value))
+    }
+
+    pub fn into_inner(self) -> bool {
+        self.0.into_inner()
+    }
+
+    pub fn get_mut(&mut self) -> &mut bool {
+        self.0.get_mut()
+    }
+
+    pub fn load(&self, ordering: Ordering) -> bool {
+        let op = op!(self, 1, OpKind::Load, ordering);
+        let value = match before(&op) {
+            Some(stale) => stale != 0,
+            None => self.0.load(ordering),
+        };
+        after(&op, value as usize, value as usize);
+        value
+    }
+
+    pub fn store(&self, value: bool, ordering: Ordering) {
+        let op = op!(self, 1, OpKind::Store, ordering);
+        before(&op);
+        self.0.store(value, ordering);
+        after(&op, 0, value as usize);
+    }
+
+    fn rmw(
+        &self,
+        ordering: Ordering,
+        f: impl FnOnce(&std_atomic::AtomicBool) -> bool,
+        new: impl FnOnce(bool) -> bool,
+    ) -> bool {
+        let op = op!(self, 1, OpKind::Rmw, ordering);
+        before(&op);
+        let old = f(&self.0);
+        after(&op, old as usize, new(old) as usize);
+        old
+    }
+
+    pub fn swap(&self, value: bool, ordering: Ordering) -> bool {
+        self.rmw(ordering, |a| a.swap(value, ordering), |_| value)
+    }
+
+    pub fn fetch_or(&self, value: bool, ordering: Ordering) -> bool {
+        self.rmw(ordering, |a| a.fetch_or(value, ordering), |o| o | value)
+    }
+
+    pub fn fetch_and(&self, value: bool, ordering: Ordering) -> bool {
+        self.rmw(ordering, |a| a.fetch_and(value, ordering), |o| o & value)
+    }
+
+    pub fn compare_exchange(
+        &self,
+        current: bool,
+        new: bool,
+        success: Ordering,
+        failure: Ordering,
+    ) -> Result<bool, bool> {
+        let pre = op!(self, 1, OpKind::Rmw, success);
+        before(&pre);
+        let result = self.0.compare_exchange(current, new, success, failure);
+        match result {
+            Ok(old) => after(&pre, old as usize, new as usize),
+            Err(seen) => {
+                let post = op!(self, 1, OpKind::CasFail, failure);
+                after(&post, seen as usize, seen as usize)
+            }
+        }
+        result
+    }
+
+    pub fn compare_exchange_weak(
+        &self,
+        current: bool,
+        new: bool,
+        success: Ordering,
+        failure: Ordering,
+    ) -> Result<bool, bool> {
+        self.compare_exchange(current, new, success, failure)
+    }
+}
